@@ -37,12 +37,27 @@ def main(argv=None) -> int:
     ap.add_argument("--replay")
     ap.add_argument("--setup", action="store_true")
     ap.add_argument("--selftest", action="store_true")
+    ap.add_argument("--proofs", action="store_true", help="re-check the TLAPS proofs under spec/proofs (not part of any claim)")
     a = ap.parse_args(argv)
     if a.setup:
         return setup()
     if a.selftest:
         from . import selftest
         return selftest.main()
+    if a.proofs:
+        import subprocess
+        bad = 0
+        pdir = SPEC_DIR / "proofs"
+        for f in sorted(pdir.glob("*.tla")):
+            p = subprocess.run(["tlapm", "--toolbox", "0", "0", f.name], cwd=str(pdir), capture_output=True, text=True, timeout=1800)
+            out = p.stdout + p.stderr
+            ok = "obligations proved" in out and "failed" not in out.split("[INFO]")[-1]
+            line = [ln for ln in out.splitlines() if "obligations" in ln][-1:] or ["?"]
+            print(("ok   " if ok else "FAIL ") + f.name + " — " + line[0].strip())
+            bad += (not ok)
+        import shutil
+        shutil.rmtree(pdir / ".tlacache", ignore_errors=True)
+        return 0 if bad == 0 else 2
     if not a.pid:
         ap.error("property id required")
     pid = a.pid.upper()
